@@ -195,6 +195,8 @@ type scBH struct {
 	prev      string
 	pending   map[string]scEntry
 	effective bool // this handle's Commit took effect (its pending writes became T[hash])
+	private   bool // lives on a state cache of its own (NewEmpty, fblk): oracle hashes carry a unique prefix, so nothing
+	// of it is ever on a chain of the case's shared state cache, and nothing of the shared one on its chain
 }
 
 type scTH struct {
@@ -495,11 +497,40 @@ func (w *scWorld) step(i int, op string) string {
 		b := getB(f[1])
 		b.bc.SetBlockHash(hashOf(f[2]))
 		b.hash = hashOf(f[2])
+		if b.private {
+			b.hash = "~f:" + f[1] + ":" + hashOf(f[2])
+		}
 		return "ok"
 	case "txn":
 		need(3)
 		b := getB(f[2])
 		w.th[f[1]] = &scTH{tc: statecache.NewTransactionCache(b.bc), bid: f[2], pending: map[string]scEntry{}}
+		return "ok"
+	case "empty":
+		// statecache.NewEmpty(): a transaction cache over a block cache of its own on a state cache of its own — a
+		// private world. Oracle / model: a transaction on a never-committed block with unique hashes.
+		need(2)
+		bid := "~" + f[1]
+		w.bh[bid] = &scBH{hash: "~e:" + f[1], prev: "~p:" + f[1], pending: map[string]scEntry{}, private: true}
+		w.th[f[1]] = &scTH{tc: statecache.NewEmpty(), bid: bid, pending: map[string]scEntry{}}
+		w.tags["newempty"] = true
+		return "ok"
+	case "blktxn":
+		// statecache.NewBlockTxnCaches: block cache + transaction cache in one call
+		need(5)
+		bc, tc := statecache.NewBlockTxnCaches(w.sc, statecache.Block{Hash: hashOf(f[3]), PrevHash: hashOf(f[4])})
+		w.bh[f[1]] = &scBH{bc: bc, hash: hashOf(f[3]), prev: hashOf(f[4]), pending: map[string]scEntry{}}
+		w.th[f[2]] = &scTH{tc: tc, bid: f[1], pending: map[string]scEntry{}}
+		w.tags["newblocktxncaches"] = true
+		return "ok"
+	case "fblk":
+		// a block cache on a FRESH state cache: its commits and lookups never meet the case's shared state cache, even
+		// when it uses the same hashes. Oracle / model: the hashes of its world carry the prefix "~f:<bid>:".
+		need(4)
+		pfx := "~f:" + f[1] + ":"
+		w.bh[f[1]] = &scBH{bc: statecache.NewBlockCache(statecache.NewStateCache(), statecache.Block{Hash: hashOf(f[2]), PrevHash: hashOf(f[3])}),
+			hash: pfx + hashOf(f[2]), prev: pfx + hashOf(f[3]), pending: map[string]scEntry{}, private: true}
+		w.tags["fresh-statecache"] = true
 		return "ok"
 	case "qtxn":
 		need(3)
@@ -529,10 +560,12 @@ func (w *scWorld) step(i int, op string) string {
 		x := w.expectTxn(t, f[2])
 		out := guard(func() string { return w.outGet(t.tc.Get(f[2])) })
 		sb := t.qhash
+		shared := true
 		if t.bid != "" {
 			sb = w.bh[t.bid].base()
+			shared = !w.bh[t.bid].private
 		}
-		w.judge(out, x, f[2], sb, x.src == "chain" || x.src == "own-committed")
+		w.judge(out, x, f[2], sb, shared && (x.src == "chain" || x.src == "own-committed"))
 		return out
 	case "tcommit":
 		need(2)
@@ -575,7 +608,7 @@ func (w *scWorld) step(i int, op string) string {
 		b := getB(f[1])
 		x := w.expectBlock(b, f[2])
 		out := guard(func() string { return w.outGet(b.bc.Get(f[2])) })
-		w.judge(out, x, f[2], b.base(), x.src == "chain" || x.src == "own-committed")
+		w.judge(out, x, f[2], b.base(), !b.private && (x.src == "chain" || x.src == "own-committed"))
 		return out
 	case "bcommit":
 		need(2)
